@@ -907,6 +907,104 @@ pub fn run_huge(case: &HugeCase, st: &mut Stats) -> CaseResult {
             );
         }
     }
+    // the vtree manager on the derived vtree (deep, up to some 1300 leaves): leaf indices, least common ancestors of
+    // sampled leaf pairs and of the resulting internal nodes with further leaves, prime relation of sampled leaves;
+    // the reference is the harness's own in-order numbering with a parent climb
+    if let Some(v) = VTree::from_dtree(&d) {
+        fn number(v: &VTree, depth: usize, nodes: &mut Vec<(Option<usize>, usize)>, leaf: &mut BTreeMap<usize, usize>) -> usize {
+            match v {
+                BTree::Leaf(l) => {
+                    nodes.push((None, depth));
+                    leaf.insert(l.value_usize(), nodes.len() - 1);
+                    nodes.len() - 1
+                }
+                BTree::Node((), l, r) => {
+                    let li = number(l, depth + 1, nodes, leaf);
+                    nodes.push((None, depth));
+                    let me = nodes.len() - 1;
+                    let ri = number(r, depth + 1, nodes, leaf);
+                    nodes[li].0 = Some(me);
+                    nodes[ri].0 = Some(me);
+                    me
+                }
+            }
+        }
+        let mut nodes: Vec<(Option<usize>, usize)> = Vec::new();
+        let mut leaf: BTreeMap<usize, usize> = BTreeMap::new();
+        number(&v, 0, &mut nodes, &mut leaf);
+        let climb = |mut a: usize, mut b: usize| -> usize {
+            while a != b {
+                if nodes[a].1 >= nodes[b].1 {
+                    a = nodes[a].0.unwrap();
+                } else {
+                    b = nodes[b].0.unwrap();
+                }
+            }
+            a
+        };
+        let m = VTreeManager::new(v.clone());
+        let labels: Vec<usize> = leaf.keys().copied().collect();
+        let depth = nodes.iter().map(|x| x.1).max().unwrap_or(0);
+        st.bump(match depth {
+            0..=255 => "huge.derived_vtree_depth.upto_255",
+            256..=1023 => "huge.derived_vtree_depth.256_1023",
+            _ => "huge.derived_vtree_depth.from_1024",
+        });
+        for k in 0..200u64 {
+            let x = splitmix(case.seed ^ 0x1CA ^ k);
+            let (a, b, c) = (labels[x as usize % labels.len()], labels[(x >> 20) as usize % labels.len()], labels[(x >> 40) as usize % labels.len()]);
+            let (ia, ib, ic) = (m.var_index(VarLabel::new_usize(a)), m.var_index(VarLabel::new_usize(b)), m.var_index(VarLabel::new_usize(c)));
+            ensure!(
+                ia.value() == leaf[&a] && ib.value() == leaf[&b],
+                "C14/vtree-var-index",
+                "derived vtree with {} leaves: var_index({}) = {}, var_index({}) = {}; the leaves are at in-order positions {} and {}",
+                labels.len(),
+                a,
+                ia.value(),
+                b,
+                ib.value(),
+                leaf[&a],
+                leaf[&b]
+            );
+            let l1 = m.lca(ia, ib);
+            ensure!(
+                l1.value() == climb(leaf[&a], leaf[&b]),
+                "C14/vtree-lca",
+                "derived vtree with {} leaves and depth {}: lca of leaves {} and {} (in-order {} and {}) = {}; climbing the parents gives {}",
+                labels.len(),
+                depth,
+                a,
+                b,
+                leaf[&a],
+                leaf[&b],
+                l1.value(),
+                climb(leaf[&a], leaf[&b])
+            );
+            let l2 = m.lca(l1, ic);
+            ensure!(
+                l2.value() == climb(l1.value(), leaf[&c]),
+                "C14/vtree-lca",
+                "derived vtree with {} leaves and depth {}: lca of node {} and leaf {} (in-order {}) = {}; climbing the parents gives {}",
+                labels.len(),
+                depth,
+                l1.value(),
+                c,
+                leaf[&c],
+                l2.value(),
+                climb(l1.value(), leaf[&c])
+            );
+            ensure!(
+                m.is_prime_var(VarLabel::new_usize(a), VarLabel::new_usize(b)) == (leaf[&a] < leaf[&b]) && m.is_prime_index(l1, ic) == (l1.value() < leaf[&c]),
+                "C14/vtree-prime-relation",
+                "derived vtree with {} leaves: prime relation of leaves {} / {} or of node {} / leaf {} disagrees with the in-order positions",
+                labels.len(),
+                a,
+                b,
+                l1.value(),
+                c
+            );
+        }
+    }
     st.flag("huge.unused_labels", mentioned.len() < n);
     if n > 256 && w.nonempty_internal_cutset {
         st.mark_nontrivial();
@@ -989,7 +1087,7 @@ fn walk_dtree_fast(d: &DTree, ancestors: &BTreeSet<usize>, w: &mut DWalk) -> Res
 impl SubCheckT for HugeOrders {
     type Case = HugeCase;
     const NAME: &'static str = "orders_and_dtrees_many_variables";
-    const RULE: &'static str = "formula over 130..1300 variables generated from a seed (implication chain, grid, local random 3-CNF, disjoint gadgets with unused labels, chain with unit / duplicate / long clauses; sizes concentrated around 256 and 1024): linear_order, force_order, VarOrder::new(random permutation) + new_last, and min_fill_order where affordable (<= 420 variables, <= 300 for the random family) are checked as in `orders`; the dtree of one of these orders is checked as in `dtree` (leaves = clauses, vars, internal cutsets) and the derived vtree has exactly the mentioned variables as leaves. Non-trivial: more than 256 variables and a non-empty internal cutset";
+    const RULE: &'static str = "formula over 130..1300 variables generated from a seed (implication chain, grid, local random 3-CNF, disjoint gadgets with unused labels, chain with unit / duplicate / long clauses; sizes concentrated around 256 and 1024): linear_order, force_order, VarOrder::new(random permutation) + new_last, and min_fill_order where affordable (<= 420 variables, <= 300 for the random family) are checked as in `orders`; the dtree of one of these orders is checked as in `dtree` (leaves = clauses, vars, internal cutsets) and the derived vtree has exactly the mentioned variables as leaves; a VTreeManager built on that vtree (depth beyond 255 and 1023 for chains) is held to the harness's in-order numbering on 200 sampled leaf / node pairs (var_index, lca, prime relation). Non-trivial: more than 256 variables and a non-empty internal cutset";
     fn cases(tier: Tier) -> u32 {
         tier.pick(96, 1200)
     }
